@@ -306,12 +306,15 @@ def RaisesOnly (D : Decoders) (S : List PyErr) : Prop :=
   (∀ w e, D.interest w = .error e → e ∈ S) ∧ (∀ w e, D.data w = .error e → e ∈ S)
 
 /-- the `except` clauses are sufficient: every raisable class is swallowed at every decoding step,
-    an envelope without Fragment is dropped, and the Nack lookup cannot leak `KeyError` -/
+    an envelope without Fragment is dropped, the Nack lookup cannot leak `KeyError`, and completing a pending entry
+    is skipped when its future is already done (a packet arriving in the loop turn in which its Interest was cancelled
+    or timed out: `set_exception` / `set_result` on a done future would raise `InvalidStateError`) -/
 def safe (g : Guards) : Bool :=
   raisable.all (fun e => g.caughtLp.contains e) && raisable.all (fun e => g.caughtFragTl.contains e) &&
   raisable.all (fun e => g.caughtNackInterest.contains e) && raisable.all (fun e => g.caughtInterest.contains e) &&
   raisable.all (fun e => g.caughtData.contains e) &&
-  (g.fragNoneGuard || g.caughtFragTl.contains .typeError) && g.caughtNackLookup.contains .keyError
+  (g.fragNoneGuard || g.caughtFragTl.contains .typeError) && g.caughtNackLookup.contains .keyError &&
+  g.nackDoneGuard && g.satisfyDoneGuard
 
 private theorem guarded_total {α} (caught : List PyErr) (st : State) (r : Except PyErr α)
     (k : α → Except PyErr Res) (hc : raisable.all (fun e => caught.contains e) = true)
@@ -340,7 +343,7 @@ private theorem receiveNet_total (g : Guards) (hs : safe g = true) (D : Decoders
     (st : State) (nr : Option Nat) (tok : Option Bytes) (typ : Nat) (pkt : Bytes) :
     ∃ res, receiveNet g D st nr tok typ pkt = .ok res := by
   simp only [safe, Bool.and_eq_true] at hs
-  obtain ⟨⟨⟨⟨⟨⟨h1, h2⟩, h3⟩, h4⟩, h5⟩, h6⟩, h7⟩ := hs
+  obtain ⟨⟨⟨⟨⟨⟨⟨⟨h1, h2⟩, h3⟩, h4⟩, h5⟩, h6⟩, h7⟩, _⟩, _⟩ := hs
   unfold receiveNet
   split
   · exact guarded_total _ _ _ _ h3 (fun e he => hD.2.2.1 _ e he) (fun a _ => onNack_total g st _ _ h7)
@@ -355,7 +358,7 @@ theorem receive_total_of_safe (g : Guards) (hs : safe g = true) (D : Decoders) (
     (st : State) (typ : Nat) (w : Bytes) : ∃ res, receive g D st typ w = .ok res := by
   have hs' := hs
   simp only [safe, Bool.and_eq_true] at hs
-  obtain ⟨⟨⟨⟨⟨⟨h1, h2⟩, h3⟩, h4⟩, h5⟩, h6⟩, h7⟩ := hs
+  obtain ⟨⟨⟨⟨⟨⟨⟨⟨h1, h2⟩, h3⟩, h4⟩, h5⟩, h6⟩, h7⟩, _⟩, _⟩ := hs
   unfold receive
   split
   · apply guarded_total _ _ _ _ h1 (fun e he => hD.1 _ e he)
@@ -373,8 +376,8 @@ theorem receive_total_of_safe (g : Guards) (hs : safe g = true) (D : Decoders) (
 
 /-- The `except` clauses found in the source today are sufficient (both front-ends).  Closed by
     evaluation of the generated tables: deleting a class from any `except` tuple of `_receive`, the
-    `None` check on the Fragment, or the `KeyError` guard of `_on_nack` changes lean/NdnGen/C06.lean and
-    this stops checking. -/
+    `None` check on the Fragment, the `KeyError` guard of `_on_nack`, or a "future already done" guard of
+    `nack_interest` / `satisfy` changes lean/NdnGen/C06.lean and this stops checking. -/
 theorem gen_safe : safe Gen.C06.v2 = true ∧ safe Gen.C06.v1 = true := by decide
 
 /-- **receive_total.** For both front-ends, EVERY combination of decoder outcomes drawn from
